@@ -43,6 +43,9 @@
 //       rtm  <Input>  x -> J -> x2 (no text step)                   -> ok Input S
 //       lab2s/s2lab, bbenc/bbdec, logenc/logdec, trenc/trdec, tolenc/toldec, volenc/voldec,
 //       surfenc/surfdec, unitenc/unitdec, rectenc/rectdec : same on the parts
+//       proto "<name>" build an OrangeInput through the construction API (orangeinp UnitProto +
+//                     InputBuilder; scenarios spheres, bgspheres, boxes-cyls, daughters,
+//                     labels-at, empty-region)                       -> ok Input S
 //       nav  <Input>  build OrangeParams from x and from rt(x), track 32 LCG rays through both
 //                     -> ok same <nsteps> | ok diff <ray> | err <kind>
 #include <cmath>
@@ -62,7 +65,13 @@
 #include "orange/OrangeInputIO.json.hh"
 #include "orange/OrangeParams.hh"
 #include "orange/OrangeTrackView.hh"
+#include "orange/MatrixUtils.hh"
 #include "orange/detail/OrangeInputIOImpl.json.hh"
+#include "orange/orangeinp/CsgObject.hh"
+#include "orange/orangeinp/InputBuilder.hh"
+#include "orange/orangeinp/Shape.hh"
+#include "orange/orangeinp/Transformed.hh"
+#include "orange/orangeinp/UnitProto.hh"
 #include "orange/surf/SurfaceTypeTraits.hh"
 #include "orange/surf/VariantSurface.hh"
 #include "orange/transform/VariantTransform.hh"
@@ -762,6 +771,164 @@ static json op_nav(json const& p)
 }
 
 using OpFn = std::function<json(json const&)>;
+
+//---------------------------------------------------------------------------//
+// `proto "<scenario>"`: build an OrangeInput through the CONSTRUCTION API (orangeinp:
+// UnitProto + InputBuilder) and dump it as an Input S, so that the check can push
+// construction-API-built inputs through enc/rt/nav like any other input.
+namespace cproto
+{
+using namespace celeritas::orangeinp;
+using SPObj = std::shared_ptr<ObjectInterface const>;
+using SPProto = std::shared_ptr<ProtoInterface const>;
+
+static SPObj sph(string l, double r)
+{
+    return std::make_shared<SphereShape>(std::move(l), Sphere{r});
+}
+static SPObj cyl(string l, double r, double hh)
+{
+    return std::make_shared<CylinderShape>(std::move(l), Cylinder{r, hh});
+}
+static SPObj tr(SPObj o, Real3 const& t)
+{
+    return std::make_shared<Transformed>(std::move(o), Translation{t});
+}
+static SPObj box(string l, Real3 const& lo, Real3 const& hi)
+{
+    Real3 hw{(hi[0] - lo[0]) / 2, (hi[1] - lo[1]) / 2, (hi[2] - lo[2]) / 2};
+    Real3 c{(hi[0] + lo[0]) / 2, (hi[1] + lo[1]) / 2, (hi[2] + lo[2]) / 2};
+    SPObj b = std::make_shared<BoxShape>(std::move(l), Box{hw});
+    if (c[0] != 0 || c[1] != 0 || c[2] != 0)
+        b = tr(std::move(b), c);
+    return b;
+}
+static UnitProto::MaterialInput mat(SPObj o, unsigned m, Label lab = {})
+{
+    UnitProto::MaterialInput r;
+    r.interior = std::move(o);
+    r.fill = GeoMaterialId{m};
+    r.label = std::move(lab);
+    return r;
+}
+static SPProto leaf(string label, double r)
+{
+    UnitProto::Input inp;
+    inp.boundary.interior = sph(label + ":ext", r);
+    inp.background.fill = GeoMaterialId{0};
+    inp.label = std::move(label);
+    return std::make_shared<UnitProto>(std::move(inp));
+}
+
+static SPProto scenario(string const& name)
+{
+    UnitProto::Input inp;
+    if (name == "spheres")
+    {
+        inp.boundary.interior = sph("bound", 10.0);
+        inp.boundary.zorder = ZOrder::media;
+        inp.label = "global";
+        auto inner = sph("inner", 5.0);
+        inp.materials.push_back(mat(
+            make_rdv("shell", {{Sense::inside, inp.boundary.interior}, {Sense::outside, inner}}), 1));
+        inp.materials.push_back(mat(inner, 2));
+    }
+    else if (name == "bgspheres")
+    {
+        inp.boundary.interior = sph("bound", 10.0);
+        inp.label = "global";
+        inp.materials.push_back(mat(tr(sph("top", 2.0), {0, 0, 3}), 1));
+        inp.materials.push_back(mat(tr(sph("bottom", 3.0), {0, 0, -3}), 2));
+        inp.background.fill = GeoMaterialId{3};
+    }
+    else if (name == "boxes-cyls")
+    {
+        // boxes, a cylinder and a sphere with an explicit remainder
+        auto world = box("world", {-10, -10, -10}, {10, 10, 10});
+        auto b1 = box("b1", {-8, -8, -8}, {-2, -2, 8});
+        auto c1 = tr(cyl("c1", 2.0, 6.0), {4, 4, 0});
+        auto s1 = tr(sph("s1", 2.5), {4, -4, 0});
+        inp.boundary.interior = world;
+        inp.boundary.zorder = ZOrder::media;
+        inp.label = "global";
+        inp.materials.push_back(mat(b1, 1, Label{"box", "1"}));
+        inp.materials.push_back(mat(c1, 2));
+        inp.materials.push_back(mat(s1, 3));
+        inp.materials.push_back(mat(make_rdv("rest",
+                                             {{Sense::inside, world},
+                                              {Sense::outside, b1},
+                                              {Sense::outside, c1},
+                                              {Sense::outside, s1}}),
+                                    4));
+    }
+    else if (name == "daughters")
+    {
+        // translated and rotated daughter universes, background fill
+        auto lf = std::make_shared<UnitProto>([] {
+            UnitProto::Input i;
+            i.boundary.interior = cyl("bound", 1.0, 1.0);
+            i.boundary.zorder = ZOrder::media;
+            i.label = "leafy";
+            i.materials.push_back(mat(tr(cyl("bottom", 1, 0.5), {0, 0, -0.5}), 1));
+            i.materials.push_back(mat(tr(cyl("top", 1, 0.5), {0, 0, 0.5}), 2));
+            return i;
+        }());
+        inp.boundary.interior = sph("bound", 10.0);
+        inp.boundary.zorder = ZOrder::exterior;
+        inp.label = "global";
+        inp.materials.push_back(mat(tr(sph("leaf1", 1), {0, 0, -5}), 1));
+        inp.materials.push_back(mat(tr(box("leaf2", {-1, -1, -1}, {1, 1, 1}), {0, 0, 5}), 2));
+        inp.daughters.push_back({leaf("d1", 1.0), Translation{{0, 5, 0}}});
+        inp.daughters.push_back(
+            {leaf("d2", 1.5), Transformation{make_rotation(Axis::x, Turn{0.25}), {0, -5, 0}}});
+        inp.daughters.push_back(
+            {lf, Transformation{make_rotation(Axis::z, Turn{0.125}), {5, 0, 0}}});
+        inp.daughters.push_back({lf, Translation{{-5, 0, 0}}});
+        inp.background.fill = GeoMaterialId{3};
+    }
+    else if (name == "labels-at")
+    {
+        // labels a user can pass: '@' in the unit name, in a material label without ext, in
+        // an object name (-> surface labels) and in a material label's ext
+        inp.boundary.interior = sph("bound@world", 10.0);
+        inp.boundary.zorder = ZOrder::media;
+        inp.label = "global@v2";
+        auto inner = sph("in@ner", 5.0);
+        inp.materials.push_back(
+            mat(make_rdv("shell", {{Sense::inside, inp.boundary.interior}, {Sense::outside, inner}}),
+                1, Label{"fuel@pin"}));
+        inp.materials.push_back(mat(inner, 2, Label{"clad", "a@b"}));
+    }
+    else if (name == "empty-region")
+    {
+        // a material whose region is the intersection of two disjoint boxes
+        auto world = box("world", {-10, -10, -10}, {10, 10, 10});
+        auto a = box("a", {-8, -8, -8}, {-2, -2, -2});
+        auto b = box("b", {2, 2, 2}, {8, 8, 8});
+        inp.boundary.interior = world;
+        inp.label = "global";
+        inp.materials.push_back(mat(make_rdv("nothing", {{Sense::inside, a}, {Sense::inside, b}}), 1));
+        inp.materials.push_back(mat(a, 2));
+        inp.background.fill = GeoMaterialId{3};
+    }
+    else
+    {
+        throw BadOp{};
+    }
+    return std::make_shared<UnitProto>(std::move(inp));
+}
+}  // namespace cproto
+
+static json op_proto(json const& p)
+{
+    if (!p.is_string())
+        throw BadOp{};
+    auto global = cproto::scenario(p.get<string>());
+    celeritas::orangeinp::InputBuilder build_input;
+    OrangeInput x = build_input(*global);
+    return dump_Input(x);
+}
+
 static std::map<string, OpFn> const& ops()
 {
     static std::map<string, OpFn> const table = {
@@ -870,6 +1037,7 @@ static std::map<string, OpFn> const& ops()
              return dump_Rect(r);
          }},
         {"nav", op_nav},
+        {"proto", op_proto},
     };
     return table;
 }
